@@ -269,9 +269,21 @@ func streamEdsReconcile(r *rand.Rand, i int, tier string) *Case {
 		CreationTimestamp: mt(now.Add(-24 * time.Hour)), Annotations: map[string]string{}}}
 	ids := []int{1, 2, 3}
 	curTpl := pick(r, ids...)
+	// directed class (one case in twelve): a canary has just started — the previous reconcile selected
+	// the canary nodes and stored them — then the daemon pods of the selected nodes restart and the next
+	// reconcile decides from a stale read of the ExtendedDaemonSet (no canary nodes yet).  Its fresh
+	// selection differs from the stored one; the write must be refused and the stored selection kept.
+	directed := r.Intn(12) == 0
+	if directed {
+		curTpl = 2
+		cat = append(cat, "directed:stale-canary-selection")
+	}
 	// per case, every template of the history carries the same scheduling constraint (or none), so
 	// that node fitness matters for the nodes the EDS targets and the canary nodes it selects
 	deco := r.Intn(4)
+	if directed {
+		deco = 0
+	}
 	metaDiff := r.Intn(2) == 0
 	tplCase := func(id int) corev1.PodTemplateSpec {
 		t := tplOf(id)
@@ -295,7 +307,7 @@ func streamEdsReconcile(r *rand.Rand, i int, tier string) *Case {
 	}
 	eds.Spec.Template = tplCase(curTpl)
 	eds.Spec.Strategy = defaultedStrategy()
-	hasCanary := r.Intn(4) != 0
+	hasCanary := r.Intn(4) != 0 || directed
 	if hasCanary {
 		eds.Spec.Strategy.Canary = genCanarySpec(r)
 		c := eds.Spec.Strategy.Canary
@@ -322,7 +334,12 @@ func streamEdsReconcile(r *rand.Rand, i int, tier string) *Case {
 			c.Replicas = ios(intstr.FromString("50%"))
 		}
 	}
-	switch r.Intn(12) {
+	if directed {
+		c := eds.Spec.Strategy.Canary
+		c.NodeSelector, c.NodeAntiAffinityKeys = &metav1.LabelSelector{}, nil
+		c.Replicas = ios(intstr.FromInt(1 + r.Intn(2)))
+	}
+	switch r.Intn(12) + map[bool]int{true: 100, false: 0}[directed] {
 	case 0: // not defaulted
 		eds.Spec.Strategy.ReconcileFrequency = nil
 		cat = append(cat, "not-defaulted")
@@ -334,6 +351,18 @@ func streamEdsReconcile(r *rand.Rand, i int, tier string) *Case {
 			*eds.Spec.Strategy.Canary.AutoFail.MaxRestarts = 0
 			*eds.Spec.Strategy.Canary.AutoPause.MaxRestarts = 3
 			cat = append(cat, "invalid-spec")
+		}
+	case 3, 4:
+		if hasCanary && !directed {
+			// defaulted but invalid (edited after the defaults were written): manual validation together
+			// with a duration.  Validation must stop every reconcile; elapsed time must never promote.
+			c := eds.Spec.Strategy.Canary
+			c.ValidationMode = edsv1.ExtendedDaemonSetSpecStrategyCanaryValidationModeManual
+			c.Duration = &metav1.Duration{Duration: time.Duration(60+r.Intn(600)) * time.Second}
+			if r.Intn(2) == 0 {
+				c.NoRestartsDuration = &metav1.Duration{Duration: time.Duration(30+r.Intn(300)) * time.Second}
+			}
+			cat = append(cat, "invalid-spec", "invalid-spec:manual-with-duration")
 		}
 	}
 	if r.Intn(8) == 0 { // F11: the EDS carries the name label of something else
@@ -347,6 +376,10 @@ func streamEdsReconcile(r *rand.Rand, i int, tier string) *Case {
 		if v, ok := genAnnotValue(r); ok && r.Intn(2) == 0 {
 			eds.Annotations[k] = v
 		}
+	}
+	if directed {
+		eds.Labels = nil
+		eds.Annotations = map[string]string{}
 	}
 	names := map[int]string{1: "foo-a", 2: "foo-b", 3: "foo-c"}
 	switch r.Intn(5) {
@@ -404,6 +437,12 @@ func streamEdsReconcile(r *rand.Rand, i int, tier string) *Case {
 	if r.Intn(4) == 0 { // another EDS in the same namespace
 		all = append(all, mk("bar-a", testNS, pick(r, ids...), "bar"))
 	}
+	if directed {
+		delete(eds.Annotations, edsv1.ExtendedDaemonSetCanaryValidAnnotationKey)
+		a, b := newERS("foo-a", tplCase(1), now.Add(-time.Hour)), newERS("foo-b", tplCase(2), now.Add(-20*time.Second))
+		a.Status.Desired, a.Status.Current, a.Status.Ready, a.Status.Available = 3, 3, 3, 3
+		all = []*edsv1.ExtendedDaemonSetReplicaSet{a, b}
+	}
 	for _, e := range all {
 		objs = append(objs, e)
 	}
@@ -435,16 +474,23 @@ func streamEdsReconcile(r *rand.Rand, i int, tier string) *Case {
 		eds.Status.Conditions = append(eds.Status.Conditions, edsv1.ExtendedDaemonSetCondition{Type: edsv1.ConditionTypeEDSCanaryPaused,
 			Status: pick(r, corev1.ConditionTrue, corev1.ConditionFalse), LastTransitionTime: mt(now.Add(-time.Hour)), LastUpdateTime: mt(now.Add(-time.Hour))})
 	}
+	if directed {
+		eds.Status.ActiveReplicaSet, eds.Status.Canary, eds.Status.Conditions = "foo-a", nil, nil
+		eds.Status.State = edsv1.ExtendedDaemonSetStatusStateRunning
+	}
 	objs = append(objs, eds)
 	var cnodes []canon.Node
 	var cpods []canon.Pod
 	nn := 1 + r.Intn(4)
+	if directed {
+		nn = 3 + r.Intn(3)
+	}
 	for k := 0; k < nn; k++ {
 		n := genNode(r, fmt.Sprintf("n%d", k), deco != 0)
 		objs = append(objs, n)
 		cnodes = append(cnodes, canon.CNode(n, testNS, testEDS))
-		if r.Intn(2) == 0 {
-			p := &corev1.Pod{ObjectMeta: metav1.ObjectMeta{Name: fmt.Sprintf("p%d", k), Namespace: pick(r, testNS, testNS, "ns2"),
+		if r.Intn(2) == 0 || directed {
+			p := &corev1.Pod{ObjectMeta: metav1.ObjectMeta{Name: fmt.Sprintf("p%d", k), Namespace: pick(r, testNS, testNS, map[bool]string{true: testNS, false: "ns2"}[directed]),
 				Labels: map[string]string{edsv1.ExtendedDaemonSetNameLabelKey: testEDS}}}
 			p.Spec.NodeName = n.Name
 			p.Spec.Containers = []corev1.Container{{Name: "main", Image: "i"}}
@@ -461,10 +507,10 @@ func streamEdsReconcile(r *rand.Rand, i int, tier string) *Case {
 	// lost one of its first writes (rejected, or applied with the answer lost): the states "between
 	// two writes" that only a crash or an API error produces.
 	var failAt map[int]string
-	prerun := r.Intn(3) == 0
+	prerun := r.Intn(3) == 0 || directed
 	if prerun {
 		failAt = map[int]string{}
-		switch r.Intn(4) {
+		switch r.Intn(4) * map[bool]int{true: 0, false: 1}[directed] {
 		case 0:
 		case 1:
 			failAt[-1] = pick(r, "reject", "reject", "lost")
@@ -472,11 +518,34 @@ func streamEdsReconcile(r *rand.Rand, i int, tier string) *Case {
 			failAt[r.Intn(3)] = pick(r, "reject", "reject", "lost")
 		}
 	}
+	// one case in six (without a previous faulted reconcile): a neighbour with the same name in another
+	// namespace lives in the same store, has no replica set yet, and the same controller process reconciles
+	// it first (it creates its replica set) — nothing remembered from that may leak into this reconcile
+	neighbourFirst := !prerun && r.Intn(6) == 0
+	if neighbourFirst {
+		nb := &edsv1.ExtendedDaemonSet{ObjectMeta: metav1.ObjectMeta{Name: testEDS, Namespace: "ns2", UID: "uid-eds-ns2",
+			CreationTimestamp: mt(now.Add(-time.Hour)), Annotations: map[string]string{}}}
+		nb.Spec.Template = tplCase(pick(r, curTpl, curTpl, pick(r, ids...)))
+		nb.Spec.Strategy = defaultedStrategy()
+		objs = append(objs, nb)
+		cat = append(cat, "neighbour-reconciled-first")
+	}
 	cl := loggingClient(objs, wl, failAt)
+	sw := &switchClient{Client: cl}
+	mode := pick(r, edsv1.ExtendedDaemonSetSpecStrategyCanaryValidationModeAuto, edsv1.ExtendedDaemonSetSpecStrategyCanaryValidationModeManual)
+	rec := newEDSReconciler(sw, mode)
+	if neighbourFirst {
+		Recovered(func() {
+			_, _ = rec.Reconcile(context.TODO(), reconcile.Request{NamespacedName: types.NamespacedName{Namespace: "ns2", Name: testEDS}})
+		})
+		wl.mu.Lock()
+		wl.Order, wl.Created, wl.Deleted, wl.Updated, wl.Status, wl.Patched = nil, nil, nil, nil, nil, nil
+		wl.mu.Unlock()
+	}
 	// what the API held before the previous reconcile: a stale read returns this
 	stale0 := &edsv1.ExtendedDaemonSet{}
 	_ = cl.Get(context.TODO(), types.NamespacedName{Namespace: testNS, Name: testEDS}, stale0)
-	staleRead := prerun && len(failAt) == 0 && r.Intn(2) == 0
+	staleRead := prerun && len(failAt) == 0 && (r.Intn(2) == 0 || directed)
 	if prerun {
 		mode0 := pick(r, edsv1.ExtendedDaemonSetSpecStrategyCanaryValidationModeAuto, edsv1.ExtendedDaemonSetSpecStrategyCanaryValidationModeManual)
 		pre, _ := runEdsReconcile(newEDSReconciler(cl, mode0), wl, testNS, testEDS)
@@ -499,9 +568,6 @@ func streamEdsReconcile(r *rand.Rand, i int, tier string) *Case {
 	if cers == nil {
 		cers = []canon.ERS{}
 	}
-	mode := pick(r, edsv1.ExtendedDaemonSetSpecStrategyCanaryValidationModeAuto, edsv1.ExtendedDaemonSetSpecStrategyCanaryValidationModeManual)
-	sw := &switchClient{Client: cl}
-	rec := newEDSReconciler(sw, mode)
 	before := &edsv1.ExtendedDaemonSet{}
 	_ = cl.Get(context.TODO(), types.NamespacedName{Namespace: testNS, Name: testEDS}, before)
 	if staleRead && before.ResourceVersion == stale0.ResourceVersion {
@@ -511,6 +577,37 @@ func streamEdsReconcile(r *rand.Rand, i int, tier string) *Case {
 		// the informer cache lags behind the controller's own previous write: this reconcile reads the
 		// ExtendedDaemonSet as it was before it.  Optimistic concurrency must then refuse its writes.
 		cat = append(cat, "stale-read")
+		if r.Intn(3) != 0 || directed {
+			// and the world moved on meanwhile: daemon pods restarted (the ranking of candidate canary
+			// nodes changes), so a decision taken from the stale object differs from the stored one
+			cat = append(cat, "stale-read:pods-restarted")
+			cpods = cpods[:0]
+			for _, o := range objs {
+				p0, ok := o.(*corev1.Pod)
+				if !ok {
+					continue
+				}
+				p := &corev1.Pod{}
+				if err := cl.Get(context.TODO(), types.NamespacedName{Namespace: p0.Namespace, Name: p0.Name}, p); err != nil {
+					continue
+				}
+				onSelected := false
+				if before.Status.Canary != nil {
+					for _, nm := range before.Status.Canary.Nodes {
+						onSelected = onSelected || nm == p.Spec.NodeName
+					}
+				}
+				if len(p.Status.ContainerStatuses) > 0 && (r.Intn(2) == 0 || (directed && onSelected)) {
+					p.Status.ContainerStatuses[0].RestartCount += int32(5 + r.Intn(4))
+					_ = cl.Status().Update(context.TODO(), p) // (pods have a status subresource in the fake client)
+					_ = cl.Get(context.TODO(), types.NamespacedName{Namespace: p0.Namespace, Name: p0.Name}, p)
+				}
+				cpods = append(cpods, canon.CPod(p))
+			}
+			wl.mu.Lock()
+			wl.Order, wl.Created, wl.Deleted, wl.Updated, wl.Status, wl.Patched = nil, nil, nil, nil, nil, nil
+			wl.mu.Unlock()
+		}
 		sw.use(&staleGetClient{Client: cl, key: types.NamespacedName{Namespace: testNS, Name: testEDS}, stale: stale0, n: 1})
 	}
 	if !prerun && r.Intn(4) == 0 {
